@@ -2,6 +2,7 @@ package main
 
 import (
 	"fmt"
+	"go/token"
 	"regexp"
 	"sort"
 	"strings"
@@ -164,6 +165,45 @@ func rulesC12(w *World, r *Report) {
 		if hl == nil {
 			continue
 		}
+		// the handler refuses nothing the local path accepts: before the Local call a request is turned away only
+		// for an empty parameter or a parameter that does not parse
+		for _, b := range H.Blocks {
+			if len(b.Instrs) == 0 || !(b == hl.Block() || b.Dominates(hl.Block())) {
+				continue
+			}
+			iff, ok := b.Instrs[len(b.Instrs)-1].(*ssa.If)
+			if !ok {
+				continue
+			}
+			// one side leaves with an error, the other goes on to the Local call
+			var fail *ssa.BasicBlock
+			for i, s := range b.Succs {
+				other := b.Succs[1-i]
+				if (other == hl.Block() || other.Dominates(hl.Block())) && !(s == hl.Block() || s.Dominates(hl.Block())) {
+					fail = s
+				}
+			}
+			if fail == nil {
+				continue
+			}
+			cond, _ := stripNot(iff.Cond)
+			okCond := false
+			if x, _, _, isNil := nilTest(b); isNil && (isErrorType(x.Type()) || isErrorLikePointer(x.Type())) {
+				okCond = true
+			}
+			if bo, isBo := cond.(*ssa.BinOp); isBo && (bo.Op == token.EQL || bo.Op == token.NEQ) {
+				if s, isS := constString(bo.X); isS && s == "" {
+					okCond = true
+				}
+				if s, isS := constString(bo.Y); isS && s == "" {
+					okCond = true
+				}
+			}
+			if _, _, isLen := lenEmptyCond(cond); isLen {
+				okCond = true
+			}
+			r.Check(okCond, "C12.R1", d.name+":handler-refuses:"+newExprCtx(w).expr(cond), w.blockPos(b), "requests are refused only for empty or unparsable parameters", "the handler "+funcName(H)+" turns a request away on `"+shortExpr(newExprCtx(w).expr(cond))+"` before running "+d.local+": the local path has no such restriction, so the same file, item or window works with a directory and fails with the server URL")
+		}
 		// ---- R2 keys
 		type kv struct{ key, verb string }
 		var kvs []kv
@@ -241,6 +281,23 @@ func rulesC12(w *World, r *Report) {
 			dAtLocal := lPosToD[hp]
 			// the base directory is prepended on both sides (Join(base, rel) locally, Join(baseDir, file) in the handler)
 			okFlow := dFromClient != "" && (dAtLocal == dFromClient || strings.HasSuffix(dAtLocal, "+"+dFromClient))
+			// the value reaches the Local function through the same transformation on both paths (a conversion done
+			// by the dispatcher but not by the handler, or the reverse, feeds Local differently)
+			if okFlow {
+				shape := func(e string) string {
+					e = regexp.MustCompile(`\(net/url\.Values\)\.Get\(p\d+\.Form, "[^"]*"\)`).ReplaceAllString(e, "□")
+					e = regexp.MustCompile(`cmd\.getFormInt\(p\d+, "[^"]*"\)#0`).ReplaceAllString(e, "□")
+					e = regexp.MustCompile(`whispertool\.ParseTimestamp\(□\)#0`).ReplaceAllString(e, "□")
+					e = regexp.MustCompile(`p\d+(\.\w+)*`).ReplaceAllString(e, "□")
+					return e
+				}
+				ls, hs := shape(dex.expr(lc.Common().Args[hp])), shape(hex.expr(hl.Common().Args[hp]))
+				if ls != hs {
+					r.Violate("C12.R2", d.name+":flow-shape:"+k, w.instrPos(hl), fmt.Sprintf("the dispatcher's local branch feeds %s parameter %d with %s, the handler feeds it with %s: the value of key %s is transformed on one path only", d.local, hp, shortExpr(ls), shortExpr(hs), k))
+				} else {
+					r.OK("C12.R2", d.name+":flow-shape:"+k, w.instrPos(hl), "same transformation on both paths: "+shortExpr(ls))
+				}
+			}
 			r.Check(okFlow, "C12.R2", d.name+":flow:"+k, w.instrPos(hl), fmt.Sprintf("key %s carries dispatcher argument %s into %s parameter %d on both paths", k, dFromClient, d.local, hp),
 				fmt.Sprintf("query key %s carries the dispatcher's argument %s, but the handler passes it as %s parameter %d, which the local path feeds from %s: remote and local calls disagree", k, dFromClient, d.local, hp, dAtLocal))
 		}
